@@ -1,9 +1,7 @@
-import Driver.Util
-/-! Driver for C07: not built yet. -/
+import Driver.AdminCommon
+/-! Driver for C07: the shared administrative model + the C07 part of the oracle (see Driver/AdminCommon.lean). -/
 namespace Driver.C07
 
-def run : IO UInt32 := do
-  IO.eprintln "C07: driver not built yet"
-  return 2
+def run : IO UInt32 := Driver.Adm.run "C07"
 
 end Driver.C07
